@@ -9,6 +9,20 @@ BUILTIN = ("Int", "Float", "String", "Boolean", "ID")
 _HUMP = re.compile(r"[A-Z]?[a-z0-9]+|[A-Z]+(?![a-z])")
 
 
+IDEO = "\u3000first line\n\u3000second line"     # every line starts with U+3000 (white space that is NOT GraphQL indentation)
+
+
+def expand(obj):
+    """Markers of the specification's string atoms -> concrete strings (applied to TLC output before gamma and before normalisation)."""
+    if isinstance(obj, dict):
+        return {k: expand(v) for k, v in obj.items()}
+    if isinstance(obj, list):
+        return [expand(v) for v in obj]
+    if obj == "IDEO2":
+        return IDEO
+    return obj
+
+
 def spell(words, camel):
     if not camel:
         return "_".join(words)
